@@ -40,3 +40,7 @@ pub mod c12_fork;
 pub mod c14_buffered;
 #[cfg(all(kani, feature = "c08"))]
 pub mod c08_converter;
+#[cfg(all(kani, feature = "c18"))]
+pub mod c18_sinc;
+#[cfg(all(kani, feature = "c16"))]
+pub mod c16_nodes;
